@@ -9,6 +9,7 @@ import PrecondVerif.Lemmas.Partition
 import PrecondVerif.Lemmas.Blockify
 import PrecondVerif.Lemmas.PartitionIdx
 import PrecondVerif.Lemmas.BlockifyIdx
+import PrecondVerif.Lemmas.ClosedForms
 
 namespace PrecondVerif.C06
 open PrecondVerif.Shapes
@@ -374,6 +375,66 @@ theorem unblocked_blocked_id (S : List Nat) (b : Nat) (hb : 0 < b)
   rw [h1, h3] at this
   exact this
 
+
+/-! ### third round: closed forms -/
+
+/-- **Per-axis pieces in closed form**: the `j`-th piece of an axis of size `d` starts at `j * b`, and when the axis
+is split (`0 < b < d`) it ends at `min ((j+1)·b, d)` — all pieces but the last have size `b`. -/
+theorem axis_piece_closed_form (d b j : Nat) (hj : j < (splitSizes d b).length) :
+    (offsets (splitSizes d b) 0).getD j 0 = j * b ∧
+    (splitSizes d b).getD j 0 = (if 0 < b ∧ b < d then min ((j + 1) * b) d else d) - j * b :=
+  ⟨axis_offset_closed d b j hj, axis_size_closed d b j hj⟩
+
+/-- `blockOffsets` (prefix sums of `splitSizes`) is `[k_1·b, …, k_r·b]`. -/
+theorem block_offsets_closed_form (shape : List Nat) (b k : Nat) (hk : k < prod (blockGrid shape b)) :
+    blockOffsets shape b k = (blockCoords shape b k).map (· * b) := (blockOffsets_closed shape b k hk).1
+
+/-- **Block `k` is the slice `t[k_1·b : min((k_1+1)·b, d_1), …, k_r·b : min((k_r+1)·b, d_r)]`** (on an unsplit
+axis `k_a = 0` and the slice is the whole axis) — the textbook form of "contiguous sub-tensor no larger than the
+block size": shape = stop − start axis by axis, entry `idx` = the tensor's entry at `start + idx`. -/
+theorem partition_block_is_slice {α} (t : Tensor α) (b k : Nat) (hk : k < (partition t b).length) :
+    ((partition t b)[k]).shape =
+      List.zipWith (fun d ka => (if 0 < b ∧ b < d then min ((ka + 1) * b) d else d) - ka * b) t.shape
+        (blockCoords t.shape b k) ∧
+    ∀ idx : List Nat, idx.length = t.shape.length →
+      ((partition t b)[k]).get idx = t.get (addOff ((blockCoords t.shape b k).map (· * b)) idx) := by
+  have hk' : k < prod (blockGrid t.shape b) := by rw [← partition_length]; exact hk
+  obtain ⟨h1, h2, _⟩ := partition_contiguous t b k hk
+  obtain ⟨c1, c2⟩ := blockOffsets_closed t.shape b k hk'
+  rw [c2] at h1
+  refine ⟨h1, ?_⟩
+  intro idx hi
+  rw [h2 idx hi, c1]
+
+/-- **`tfBlockOffsets` in closed form** (any shape and block size): it has the parameter's rank; on the `i`-th large
+axis it is the `i`-th grid coordinate of the block times the block size; it is 0 on every small axis. -/
+theorem tf_block_offsets_closed_form (b : Nat) (S : List Nat) (blk : Nat) :
+    (tfBlockOffsets (blocksMetadata b S) blk).length = S.length ∧
+    (∀ i (hi : i < (blocksMetadata b S).largeAxes.length),
+      (tfBlockOffsets (blocksMetadata b S) blk).getD ((blocksMetadata b S).largeAxes[i]) 0 =
+        (unravel (blocksMetadata b S).blocksPerLargeAxis blk).getD i 0 * b) ∧
+    (∀ k, k ∉ (blocksMetadata b S).largeAxes → (tfBlockOffsets (blocksMetadata b S) blk).getD k 0 = 0) :=
+  tfBlockOffsets_closed b S blk
+
+/-- converse of `unblocked_blocked_id`: an entry of the blockified array is found again from its parameter index -/
+theorem blocked_unblocked_id (S : List Nat) (b : Nat) (hb : 0 < b)
+    (hle : (blocksMetadata b S).largeAxes.length ≤ 2)
+    (hdiv : ∀ a ∈ (blocksMetadata b S).largeAxes, b ∣ S.getD a 0)
+    (x : List Nat) (hx : inBounds (blockedShape (blocksMetadata b S)) x) :
+    blockedIndex (blocksMetadata b S) (unblockedIndex (blocksMetadata b S) x) = x :=
+  Shapes.blocked_unblocked_id S b hb hle hdiv x hx
+
+/-- **The Tearfree blocks tile the (padded) parameter**: every in-bounds parameter index comes from exactly one
+in-bounds index of the blockified array — exactly one (block number at the blocks axis, index inside the block). -/
+theorem blockify_blocks_tile (S : List Nat) (b : Nat) (hb : 0 < b)
+    (hle : (blocksMetadata b S).largeAxes.length ≤ 2)
+    (hdiv : ∀ a ∈ (blocksMetadata b S).largeAxes, b ∣ S.getD a 0)
+    (idx : List Nat) (hi : inBounds S idx) :
+    inBounds (blockedShape (blocksMetadata b S)) (blockedIndex (blocksMetadata b S) idx) ∧
+    unblockedIndex (blocksMetadata b S) (blockedIndex (blocksMetadata b S) idx) = idx ∧
+    ∀ x, inBounds (blockedShape (blocksMetadata b S)) x → unblockedIndex (blocksMetadata b S) x = idx →
+      x = blockedIndex (blocksMetadata b S) idx := blocked_tile S b hb hle hdiv idx hi
+
 /-! ### non-vacuity: concrete instances meeting the hypotheses -/
 
 example : mergeSmallDims [1, 2, 512, 1, 2048, 1, 3, 4] 1024 = [1024, 2048, 12] := by decide
@@ -391,5 +452,9 @@ example : blockedIndex (blocksMetadata 4 [8, 3, 8]) [5, 1, 6] = [3, 1, 1, 2] ∧
     unblockedIndex (blocksMetadata 4 [8, 3, 8]) [3, 1, 1, 2] = [5, 1, 6] ∧
     blockedShape (blocksMetadata 4 [8, 3, 8]) = [4, 4, 3, 4] ∧
     (blocksMetadata 4 [8, 3, 8]).largeAxes = [0, 2] := by decide
+
+example : blockOffsets [7, 3] 3 2 = [6, 0] ∧ (blockCoords [7, 3] 3 2).map (· * 3) = [6, 0] ∧
+    blockDims [7, 3] 3 2 = [1, 3] := by decide
+example : tfBlockOffsets (blocksMetadata 4 [8, 3, 8]) 3 = [4, 0, 4] := by decide
 
 end PrecondVerif.C06
